@@ -347,6 +347,26 @@ def campaign(prop, tier, verif_seed, nruns=None, jobs=None, out=sys.stdout):
         else:
             print('note: known finding %s no longer reproduces (got %s)' % (e['id'], viol and viol['sig']), file=out)
 
+    # 1b. committed regression scenarios: explicit scenarios that once violated the property (defects since repaired
+    #     in /repo, see known_findings.json "fixed") are executed again; any violation is reported like a campaign one
+    reg_viols = []
+    reg_run = 0
+    regdir = os.path.join(VERIF_DIR, 'regressions')
+    for fn in sorted(os.listdir(regdir)) if os.path.isdir(regdir) else []:
+        if not fn.startswith(prop + '-') or not fn.endswith('.json'):
+            continue
+        rp = os.path.join(regdir, fn)
+        try:
+            with open(rp) as f:
+                body = json.load(f)
+            viol, _, dig, _ = execute(mod, body['scenario'])
+        except Exception as e:      # a scenario written for an older harness: skipped, never a verdict
+            print('note: regression scenario %s not executable by this harness (%s)' % (fn, type(e).__name__), file=out)
+            continue
+        reg_run += 1
+        if viol is not None:
+            reg_viols.append((rp, body['scenario'], viol, dig))
+
     # 2. the seeded campaign
     chunks = [[] for _ in range(jobs * 4)]
     for i in range(nruns):
@@ -429,6 +449,16 @@ def campaign(prop, tier, verif_seed, nruns=None, jobs=None, out=sys.stdout):
         print('VIOLATION property=%s replay=%s' % (prop, path), file=out)
         reported.append(path)
 
+    for rp, rscn, rviol, rdig in reg_viols:
+        if rviol['sig'] in final_sigs or kf.match(prop, rviol['sig']) is not None:
+            continue
+        final_sigs.add(rviol['sig'])
+        path = write_replay(prop, rscn, rviol, rdig)
+        print('violation: class=%s signature=%s step=%s regression_scenario=%s' % (rviol['cls'], rviol['sig'], rviol['step'], os.path.basename(rp)), file=out)
+        print('  detail: %s' % str(rviol['detail'])[:600], file=out)
+        print('VIOLATION property=%s replay=%s' % (prop, path), file=out)
+        reported.append(path)
+
     if unreplayable and not reported:
         raise HarnessFault('violation %s from run %d does not replay in a fresh process:\n%s' % unreplayable[0])
     for u in unreplayable:
@@ -457,6 +487,7 @@ def campaign(prop, tier, verif_seed, nruns=None, jobs=None, out=sys.stdout):
             'real_components': getattr(mod, 'REAL', []),
             'stub_components': getattr(mod, 'STUB', []),
             'known_findings_confirmed': kf_confirmed,
+            'regression_scenarios_replayed': reg_run,
             'determinism_spotcheck': {'pairs': len(spot), 'mismatches': mism},
             'exhaustive': False,
         },
